@@ -8,7 +8,7 @@ from sa.domains import replace_chain
 from sa.effects import class_accesses
 from sa.selftest import Mutant, Silent
 from sa.source import AnalysisError, class_assigns, methods
-from sa.props._lib_i import (NotPure, Raised, eval_block, guards_hold, is_self_attr, module_env, peval, words)
+from sa.props._lib_i import (sect, NotPure, Raised, eval_block, guards_hold, is_self_attr, module_env, peval, words)
 
 PROPERTY = "C40"
 SMTP = "mail/smtp.py"
@@ -517,12 +517,18 @@ def check(ctx):
     wired = _definitions(ctx, CLIENT_CLASSES, "smtpState_data")
     ctx.need(wired, "SMTPClient.smtpState_data")
     for cn, f in wired:
-        _check_wiring(ctx, cn, f, delim_srv, delim_cli)
-    _check_sendline(ctx, delim_cli)
-    _check_filesender(ctx)
-    _check_dispatch(ctx, env)
-    _check_mode_writers(ctx)
-    _check_do_data(ctx)
+        with sect(ctx, f"client wiring / writer ({cn})"):
+            _check_wiring(ctx, cn, f, delim_srv, delim_cli)
+    with sect(ctx, "client sendLine"):
+        _check_sendline(ctx, delim_cli)
+    with sect(ctx, "FileSender"):
+        _check_filesender(ctx)
+    with sect(ctx, "server dispatch / reader"):
+        _check_dispatch(ctx, env)
+    with sect(ctx, "mode writers"):
+        _check_mode_writers(ctx)
+    with sect(ctx, "do_DATA"):
+        _check_do_data(ctx)
 
 
 _TC = '        return chunk.replace(b"\\n", b"\\r\\n").replace(b"\\r\\n.", b"\\r\\n..")\n'
